@@ -75,9 +75,11 @@ func accessorScenario(name, loc string, only []string, boost int) (scenario, boo
 			// panicking is not this property's matter
 			call := func(n int, s string) { _ = hx.Safely(func() { a.call(n, s) }) }
 			ops = append(ops,
-				func() string { k := fresh.Add(1); call(int(3+k%997), fmt.Sprintf("k%d", k)); return "miss" },
+				// fresh keys are drawn from 4096 per prefix: a table that grows with every call (locales.RegisterLocale, whose
+				// readers sort the whole table) made the thorough run quadratic and hit the time limit ("deadlock")
+				func() string { k := fresh.Add(1); call(int(3+k%997), fmt.Sprintf("k%d", k%4096)); return "miss" },
 				func() string { call(1, ":"); return "hit" },
-				func() string { k := fresh.Add(1); call(int(3+k%997), fmt.Sprintf("q%d-", k)); return "miss" },
+				func() string { k := fresh.Add(1); call(int(3+k%997), fmt.Sprintf("q%d-", k%4096)); return "miss" },
 				func() string { call(2, "-"); return "hit" })
 		}
 		return ops
@@ -113,6 +115,9 @@ type scenario struct {
 	procs    int
 	// special: the scenario runs this instead of the hammering loop and prints its own RESULT line
 	special func()
+	// custom: the scenario has a loop of its own (derive.go); returns the number of results that differ from the
+	// run-alone results
+	custom func(g, iters int) int
 }
 
 func verdict(s any, in any) string {
@@ -132,6 +137,7 @@ var targets []string
 func scenarios() []scenario {
 	out := baseScenarios()
 	out = append(out, firstUseScenarios()...)
+	out = append(out, deriveScenarios()...)
 	// one scenario per shared location with callable accessors (package-level caches, config, locale table)
 	for _, loc := range sharedLocs() {
 		if sc, ok := accessorScenario("cache:"+loc, loc, nil, 20); ok {
@@ -390,6 +396,10 @@ func main() {
 					sc.special()
 					return
 				}
+				if sc.custom != nil {
+					fmt.Printf("RESULT mismatches=%d\n", sc.custom(g, iters))
+					return
+				}
 				if sc.firstUse != nil {
 					if *aloneF {
 						runAlone(sc)
@@ -421,7 +431,7 @@ func main() {
 		for _, procsEnv := range passes {
 			// the 2-P pass only for the scenarios about lazily built or process-wide state
 			if procsEnv != "" && !(sc.firstUse != nil || strings.HasPrefix(sc.name, "cache:") || strings.HasPrefix(sc.name, "target:") ||
-				sc.name == "lazy-first-use" || sc.name == "registry-meta" || sc.name == "config" || sc.name == "format-caches") {
+				sc.name == "lazy-first-use" || sc.name == "registry-meta" || sc.name == "config" || sc.name == "format-caches" || sc.custom != nil) {
 				continue
 			}
 			obs := "norace ok"
